@@ -1852,6 +1852,10 @@ func (p *scionPacketProcessor) processOHP() disposition {
 		// TODO parameter problem -> invalid path
 		return errorDiscard("error", errMalformedPath)
 	}
+	if int(s.PayloadLen) != len(s.Payload) {
+		// TODO parameter problem -> invalid packet size
+		return errorDiscard("error", errBadPacketSize)
+	}
 
 	// OHP leaving our IA
 	if p.ingressFromLink == 0 {
